@@ -669,7 +669,7 @@ pub fn run_c08(ctx: &RunCtx) {
         ctx.mark_exhaustive(format!("arithmetic matrix: {} (operator, left type, right type) programs", progs.len()));
     }
     // typed graphs of generated programs
-    let n = ctx.pick(60_000u64, 5_000_000u64);
+    let n = ctx.pick(150_000u64, 5_000_000u64);
     for (name, profile) in [("plain", crate::semgen::Profile::plain()), ("faulty", crate::semgen::Profile::faulty())] {
         ctx.random(&format!("typed-graph-{name}"), n, 1200, |src| {
             let prog = crate::semgen::gen_program(src, &profile);
@@ -1065,7 +1065,7 @@ pub fn run_c09(ctx: &RunCtx) {
         ctx.merge_stats(st);
     }
     // random widths
-    let n = ctx.pick(20_000u64, 1_000_000u64);
+    let n = ctx.pick(100_000u64, 1_000_000u64);
     ctx.random("random-width", n, 8, |src| {
         let bits = 1 + src.below(34);
         let w: u128 = ((src.u64() as u128) % (1u128 << bits)).max(1);
@@ -1082,7 +1082,7 @@ pub fn run_c09(ctx: &RunCtx) {
         rep
     });
     // declared types inside generated programs (joint walk)
-    let n = ctx.pick(30_000u64, 2_000_000u64);
+    let n = ctx.pick(100_000u64, 2_000_000u64);
     ctx.random("joint-walk", n, 1200, |src| {
         let prog = crate::semgen::gen_program(src, &crate::semgen::Profile::plain());
         let pr = crate::synprops::print_program(src, &prog, crate::layout::Style::Spaced);
